@@ -91,7 +91,7 @@ RECURSIVE Group2(_, _)
 Group2(n, sep) == IF n < 100 THEN ToString(n) ELSE Group2(n \div 100, sep) \o sep \o ZeroPad(ToString(n % 100), 2)
 Indian(n, sep) == IF n < 1000 THEN ToString(n) ELSE Group2(n \div 1000, sep) \o sep \o ZeroPad(ToString(n % 1000), 3)
 
-Notations == {"point", "comma", "gcp", "gpc", "gsc", "gsp", "indian", "trail", "trailc", "exp", "expp"}
+Notations == {"point", "comma", "gcp", "gpc", "gsc", "gsp", "indian", "trail", "trailc", "exp", "expp", "expd", "expdc"}
 
 (* spelling of the non-negative decimal m * 10^-sc in notation n; extra = written trailing zeros *)
 Spell(m, sc, n) ==
@@ -110,6 +110,10 @@ Spell(m, sc, n) ==
          [] n = "trailc" -> ToString(ip) \o ","
          [] n = "exp"    -> ToString(m) \o (IF sc = 0 THEN "E0" ELSE "e-" \o ToString(sc))
          [] n = "expp"   -> ToString(m) \o "E+0"
+         \* scientific: one digit, the mark, the other digits, the exponent without a sign when it is not negative ("1.5E3", "2,5E1")
+         [] n \in {"expd", "expdc"} ->
+                LET ds == ToString(m)  e == (Len(ds) - 1) - sc IN
+                SubSeq(ds, 1, 1) \o (IF n = "expd" THEN "." ELSE ",") \o SubSeq(ds, 2, Len(ds)) \o (IF e >= 0 THEN "E" \o ToString(e) ELSE "e-" \o ToString(0 - e))
          [] OTHER        -> ToString(ip) \o dec(".")
 
 (* which (value, notation) pairs are in G: notations that do not change the value, are not the
@@ -123,6 +127,7 @@ NotationOK(m, sc, n) ==
       [] n \in {"trail", "trailc"}  -> sc = 0
       [] n = "exp"                  -> TRUE
       [] n = "expp"                 -> sc = 0
+      [] n \in {"expd", "expdc"}   -> m >= 10 /\ m <= 999                \* one or two digits after the mark
       [] OTHER                      -> FALSE
 
 (* ---- rendering state ----------------------------------------------------------------------- *)
